@@ -57,3 +57,13 @@ Theorem C05_label_removal_preserves_behaviour_call_free_float :
     let b := run FloatAlg O (resolve FloatAlg q) fuel' (init_state FloatAlg) in
     hist b = hist a /\ st b = st a /\ regs b = regs a /\ mem b = mem a /\ pc b = instrs_before q (pc a).
 Proof. exact resolve_preserves_behaviour_float. Qed.
+
+(* and conversely: whatever the label-free program does after any number of steps, the labelled
+   program does too (it needs the extra steps over its label lines) *)
+Theorem C05_label_free_runs_are_runs_of_the_labelled_program :
+  forall (O : @oracle float) (q : list (@line float)),
+    length q <= 4096 -> frag q = true -> forall fuel', exists fuel,
+    let a := run FloatAlg O q fuel (init_state FloatAlg) in
+    let b := run FloatAlg O (resolve FloatAlg q) fuel' (init_state FloatAlg) in
+    hist b = hist a /\ st b = st a /\ regs b = regs a /\ mem b = mem a /\ pc b = instrs_before q (pc a).
+Proof. exact resolve_behaviour_converse_float. Qed.
